@@ -49,6 +49,8 @@ func (f *Frame) clone() *Frame {
 }
 
 type Exec struct {
+	retFr       *Frame           // frame and block of the top-level return being processed (for `reach` clauses)
+	retBlk      *ssa.BasicBlock
 	frameAllows []frameAllow // heap part of the verified function's modifies clause, evaluated at entry
 	noFrame     bool
 	P        *Program
@@ -382,6 +384,11 @@ func (x *Exec) globalVal(st *State, g *ssa.Global) *Val {
 		return &Val{K: VFunc, Typ: t, Lib: "globfn:" + g.Pkg.Pkg.Path() + "." + g.Name()}
 	}
 	v := freshVal(t, name, false)
+	if v.K == VPtr && strings.HasSuffix(typeString(t), "cosmossdk.io/errors.Error") {
+		// a registered error: its own root, distinct from every other registered error
+		errPtrTag = typeID(t)
+		errGlobals[v.T.Op] = true
+	}
 	if v.K == VStr {
 		if n, ok := x.P.globalBytesLen(g); ok {
 			st.Assume(Eq(StrLen(v.T), Num(int64(n))))
@@ -554,6 +561,9 @@ func (x *Exec) step(fr *Frame, st *State, b *ssa.BasicBlock, i int) {
 			if x.paths > x.maxPaths {
 				x.aborted = fmt.Sprintf("more than %d paths", x.maxPaths)
 				return
+			}
+			if fr.depth == 0 {
+				x.retFr, x.retBlk = fr, b
 			}
 			fr.ret(st, res)
 			return
